@@ -116,7 +116,7 @@ theorem addEdgesFrom_keeps {s : HG} (h : Inv s) (fmt : Fmt) (items : List EdgeIt
   unfold addEdgesFrom
   split
   · split
-    · exact keeps_refl s
+    · exact key
     · split
       · exact keeps_refl s
       · exact key
